@@ -315,7 +315,8 @@ def serialise(desc, sp=None):
         return "".join(" %s=%s%s%s" % (n, q, _esc_attr(v, q, sp.numeric), q) for n, v in a)
 
     def text_s(t):
-        s = _esc_text(t, sp.numeric, sp.cdata)
+        # character references are not interpreted inside CDATA: no CDATA for text that will be asciified
+        s = _esc_text(t, sp.numeric, sp.cdata and (not sp.ascii or all(ord(c) < 127 for c in t)))
         if sp.pad:
             s = "\n    " + s + "\n  "
         return s
